@@ -79,6 +79,9 @@ def gen_mixed(rng, depth=1):
             args = [{"c": "str", "id": x} for x in rng.sample("pqrs", rng.randint(1, 2))]
             c = {"c": k, "args": args}
             if k == "AtMost": c["v"] = rng.randint(0, 2)
+            if rng.random() < 0.4:
+                # an explicit id that sorts in between the atoms' names: atoms and compounds interleave in id order
+                c["id"] = rng.choice("abcdefgh") + str(rng.randint(1, 99))
             comps.append(c)
     if rng.random() < 0.35:
         # conjunction-shaped: value = number of children, boolean atoms (also as All(...))
